@@ -43,8 +43,8 @@ CFG = dict(
              "(non-strict: orient ≤ 0; strict unless collinear), bad set and hole boundary of an insertion are order-independent; the EXECUTABLE "
              "checkers for vertices, index range, strict uniform winding (= positive area), no input strictly inside a circumcircle, no two "
              "triangles sharing an interior point are proved sound (c20_checkers_sound) and are run by the driver in exact integer arithmetic on "
-             "the IEEE bit patterns of the real BowyerWatson output: sound per input, sampled over inputs (10 generator classes, 3–200 points: "
-             "uniform, clustered, near-collinear hull, scaled, offset, wide, tall, low/small height). Model vs implementation triangle SETS "
+             "the IEEE bit patterns of the real BowyerWatson output: sound per input, sampled over inputs (12 generator classes, 3–200 points: "
+             "uniform, clustered, near-collinear hull, scaled, offset, far offset 1e7–1e10, tiny clusters, wide, tall, low/small height). Model vs implementation triangle SETS "
              "compared exactly on small-integer inputs, where Go's float predicates are exact.",
         note="Trusted: Lean kernel + propext/Classical.choice/Quot.sound; harness and the driver's exact float decoding; hand transcription of "
              "bowyer_watson.go (tied on integer inputs). Not proved: correctness of the incremental algorithm for all inputs (C20_full); Go evaluates "
